@@ -75,7 +75,9 @@ class C07(Prop, ScriptGen):
             'transactions with one field outside the wire range (immutable: nVersion in {2^31, -2^31-1}, nValue in {2^63, '
             '-2^63-1}; mutable: the same and nLockTime / nSequence / prevout.n = 2^32, 31/33-byte prevout hash) x indices '
             '{0,1,|vin|} x P2PK (5 hash types) / CHECKMULTISIG / empty signature / no signature check; every 1-opcode program '
-            'at negative indices; non-trivial = some script non-empty')
+            'at negative indices; C06\'s exhaustive grid through the outcome-family test: every 1-opcode program x every grid '
+            'stack (ScriptGen.grid_1op; quick 2 rotating flag sets per entry, thorough all 16), the limit probes, the '
+            'CHECKMULTISIG signature-list matrix for n <= 3 (thorough 4); non-trivial = some script non-empty')
 
     def setup(self):
         self.init_lib()
@@ -249,9 +251,9 @@ class C07(Prop, ScriptGen):
                     steps = [st_[:3] + [str(int(st_[3]) | (1 if int(st_[3]) & 4 else 0))] + st_[4:]
                              if k != (1 if r < 0.25 else len(steps) - 1) else st_ for k, st_ in enumerate(steps)]
                 yield Case(op='c07.seq', args=[x for st_ in steps for x in st_], tag=tag)
-        # CHECKMULTISIG matrix (shared with C06): all signature lists for n <= 2 keys (n = 3 in thorough), any flag set
+        # CHECKMULTISIG matrix (shared with C06): all signature lists for n <= 3 keys (n = 4 in thorough), any flag set
         i = 0
-        for n in ((1, 2, 3) if big else (1, 2)):
+        for n in ((1, 2, 3, 4) if big else (1, 2, 3)):              # the same matrix as C06
             for (sg_, spk_, mask, tag) in self.multisig_matrix(n, n % 3, 0):
                 i += 1
                 if i % nshards != shard:
@@ -284,13 +286,33 @@ class C07(Prop, ScriptGen):
         # every 1-opcode program at negative input indices (wrapping and not): no opcode but the signature ones may
         # depend on inIdx — an IndexError from a stack site there is NOT D7
         i = 0
-        for prog in _C06.one_op_programs(self):
+        for prog in self.one_op_programs():
             i += 1
             if i % nshards != shard:
                 continue
             for (ti, idx) in ((0, -1), (0, -2), (1, -5), (2, -3)):
                 yield self.ev(prog, [b'\x01', b'\x02', b'\x03'], 0, ti, idx, 0, tag='1op-negative-index')
                 yield self.vf(b'\x51\x52\x53', prog + b'\x51', 0, ti, idx, 0, tag='1op-negative-index')
+        # C06's exhaustive grid through the OUTCOME-FAMILY test (audit 4: C06 counts any exception as "fails", so "no other
+        # exception type escapes" must be established here on the same grid): every 1-opcode program x every stack of
+        # ScriptGen.grid_1op — quick: two flag sets per entry, rotating through all 16 (every flag set meets every
+        # program); thorough: all 16 — and the limit probes under flag sets 0 and 15 (thorough: all 16)
+        i = 0
+        for (prog, st) in self.grid_1op():
+            i += 1
+            if i % nshards != shard:
+                continue
+            for mask in (ALL_MASKS if big else ((i * 7) % 16, (i * 7 + 9) % 16)):
+                yield self.ev(prog, st, mask, tag='grid-1op')
+        i = 0
+        for (sc, st) in self.limit_probes(crng):
+            i += 1
+            if i % nshards != shard:
+                continue
+            for mask in (ALL_MASKS if big else (0, 15, (i * 5 + 4) % 16)):
+                yield self.ev(sc, st, mask, tag='grid-limit')
+                yield self.vf(b''.join(push(x) for x in st) if all(len(x) <= 520 for x in st) and len(st) < 400 else b'',
+                              sc, mask, tag='grid-limit-verify')
         # OPERAND matrix (shared ScriptGen.operand_matrix): every operand the code indexes into — signatures, public keys
         # — at every small length and every truncation point, reaching CHECKSIG / CHECKSIGVERIFY / CHECKMULTISIG(VERIFY)
         # bare, through P2SH and by EvalScript
